@@ -5,7 +5,7 @@
    ORACLES = ((pathstring isdir|ino-option tree) ...)       tree as in model `subevents`
    (apply FS OP)                          -> (ok names_ok FS')
    (winkernel OP)                         -> ((action relstring) ...)
-   (winemit rec root ((action relstring) ...) ORACLES)   -> ((EV ...) stop)
+   (winemit rec root last ((action relstring) ...) ORACLES)   -> ((EV ...) last' stop)     last = pending RENAMED_OLD_NAME path
    (wincontract rec root FS_after OP ((path tree) ...))  -> (EV ...)
    (fsekernel root FS OP)                 -> ((pathstring ino flags) ...)
    (fseemit rec root (ino ...) ((pathstring ino flags) ...) ORACLES) -> (some (EV ...) (ino ...) stop) | none
@@ -61,13 +61,13 @@ let run = function
   | L [A "winkernel"; o] ->
     sx_list (fun x -> let n = WinEmitter.render_native x in L [sx_n n.WinEmitter.n_action; sx_bytes n.WinEmitter.n_path])
       (WinEmitter.win_kernel (op_of o))
-  | L [A "winemit"; r; root; ns; orc] ->
+  | L [A "winemit"; r; root; last; ns; orc] ->
     let tbl = list_of (function L [p; d; t] -> (bytes_of p, (bool_of d, tree_of t)) | _ -> failwith "oracle") orc in
     let isdir p = match lookup_str tbl p with Some (d, _) -> d | None -> false in
     let walk p = match lookup_str tbl p with Some (_, t) -> t | None -> empty_tree in
     let ns = list_of (function L [a; p] -> { WinEmitter.n_action = n_of a; n_path = bytes_of p } | _ -> failwith "native") ns in
-    let (evs, stop) = WinEmitter.queue_events isdir walk (bool_of r) (bytes_of root) ns in
-    L [sx_list sx_ev evs; sx_bool stop]
+    let ((evs, last'), stop) = WinEmitter.queue_events isdir walk (bool_of r) (bytes_of root) (bytes_of last) ns in
+    L [sx_list sx_ev evs; sx_bytes last'; sx_bool stop]
   | L [A "wincontract"; r; root; f; o; subs] ->
     sx_list (fun e -> sx_ev (PlatFs.render (bytes_of root) e))
       (WinEmitter.win_contract (subs_of subs) (bool_of r) (fs_of f) (op_of o))
